@@ -241,6 +241,10 @@ def run_property(pid, cfg, tier='quick', seed=0, replayer=None):
             else:
                 table[r.key]['status'] = 'known-finding'
                 table[r.key].pop('failed', None)
+                if j['unknown']:
+                    # a contract that only exhibits a recorded finding: obligations the solver left open are listed, not claimed
+                    table[r.key]['obligations'] -= len(j['unknown'])
+                    table[r.key]['left_open_in_exhibit'] = ['%s | %s' % (o['name'], o['desc']) for o in j['unknown']]
         elif j['unknown']:
             undecided.append('%s: %d obligations left UNKNOWN by cbmc without any failure' % (r.key, len(j['unknown'])))
             table[r.key]['status'] = 'undecided'
